@@ -18,6 +18,7 @@ fn run_check(id: &str, tier: Tier) -> Result<infra::Report, String> {
         "C03" => sim::checks::c03(tier),
         "C04" => sim::checks::c04(tier),
         "C06" => sim::checks::c06(tier),
+        "C05" => sim::checks::c05(tier),
         // REGISTRY (run): "CNN" => cNN::run(tier),
         _ => Err(format!("no check registered for {}", id)),
     }
@@ -150,6 +151,7 @@ fn probe(src: &str, workers: usize, quantum: usize) {
 fn probe_scenarios() {
     let mut all = sim::scenarios::messaging_all(true);
     all.extend(sim::scenarios::bin_all());
+    all.extend(sim::scenarios::select_mix_all(false));
     let filter = std::env::args().nth(2);
     for sc in all {
         if let Some(f) = &filter { if !sc.id.contains(f.as_str()) { continue; } }
